@@ -591,8 +591,12 @@ impl<B: Backend> Compiler<B, CompilerReady> {
                 })
             }
             OutputMode::Stdout => {
-                std::io::stdout()
+                // stdout is line buffered: without the flush an unterminated last line stays
+                // in the buffer and a write error would surface only at process exit, unreported
+                let mut stdout = std::io::stdout().lock();
+                stdout
                     .write_all(generated.as_bytes())
+                    .and_then(|_| stdout.flush())
                     .map_err(|err| {
                         GeneratorError::new(
                             None,
